@@ -376,8 +376,13 @@ pub struct ChildSpec {
     pub parallel: usize,
     /// program to run (default: current exe)
     pub exe: Option<PathBuf>,
-    /// prefix command (e.g. for wrappers); usually empty
+    /// extra environment; the text `{shard}` in a value is replaced by the shard number
     pub env: Vec<(String, String)>,
+    /// arguments placed before the child arguments (for wrappers such as `cargo miri run ... --`)
+    pub pre_args: Vec<String>,
+    pub cwd: Option<PathBuf>,
+    /// how much of stderr to keep per child
+    pub stderr_keep: usize,
 }
 
 impl ChildSpec {
@@ -390,6 +395,9 @@ impl ChildSpec {
             parallel: ncpu(),
             exe: None,
             env: vec![],
+            pre_args: vec![],
+            cwd: None,
+            stderr_keep: 4000,
         }
     }
     pub fn arg(mut self, k: &str, v: impl std::fmt::Display) -> Self {
@@ -404,6 +412,12 @@ impl ChildSpec {
         self.parallel = n.max(1);
         self
     }
+}
+
+/// Factor by which wall-clock watchdog windows are stretched (set by the Miri / sanitizer
+/// layers through VERIF_SLOW; 1 natively).
+pub fn slow_factor() -> u64 {
+    std::env::var("VERIF_SLOW").ok().and_then(|s| s.parse().ok()).unwrap_or(1).max(1)
 }
 
 pub fn ncpu() -> usize {
@@ -443,6 +457,9 @@ pub fn run_children(args: &Args, spec: &ChildSpec, out: &mut Out) -> Vec<ChildEn
         let kind = spec.kind.clone();
         let extra = spec.extra.clone();
         let env = spec.env.clone();
+        let pre_args = spec.pre_args.clone();
+        let cwd = spec.cwd.clone();
+        let stderr_keep = spec.stderr_keep;
         let shards = spec.shards;
         let timeout = spec.timeout;
         let tier = args.tier;
@@ -465,12 +482,16 @@ pub fn run_children(args: &Args, spec: &ChildSpec, out: &mut Out) -> Vec<ChildEn
             ];
             argv.extend(extra.iter().cloned());
             let mut cmd = Command::new(&exe);
-            cmd.args(&argv)
+            if let Some(d) = &cwd {
+                cmd.current_dir(d);
+            }
+            cmd.args(&pre_args)
+                .args(&argv)
                 .stdin(Stdio::null())
                 .stdout(Stdio::piped())
                 .stderr(Stdio::piped());
-            for (k, v) in &env {
-                cmd.env(k, v);
+            for (kk, v) in &env {
+                cmd.env(kk, v.replace("{shard}", &k.to_string()));
             }
             let mut child = match cmd.spawn() {
                 Ok(c) => c,
@@ -545,7 +566,7 @@ pub fn run_children(args: &Args, spec: &ChildSpec, out: &mut Out) -> Vec<ChildEn
                 signal,
                 timed_out,
                 got_result: got,
-                stderr_tail: tail(&stderr, 4000),
+                stderr_tail: tail(&stderr, stderr_keep),
                 stdout_tail: tail(
                     &stdout
                         .lines()
